@@ -97,6 +97,18 @@ REG = {
         'point (ssn_freq 1/2/3/10), Appendix B.1.2 on and off, and random histories are executed; TLC judges each step (handler ran or not) and every partial IV on the wire.',
    note='Acceptance is observed at the application handler of a full server context. An older, never accepted in-window request may get either verdict. '
         'UBSan reports inside the replay window code (shift >= 64) count as violations of this property.'),
+ 'C09': dict(module='block', engine='block', category='model_checking', design_ref='4/C09',
+   technique='TLA+ spec Block (TLC closed model of Block1/Block2 exchanges over a lossy duplicating channel) + TLC judging every handler call, release and datagram of real client-server transfers',
+   text='Block.tla defines block geometry and what an application may obtain (whole body / aligned slice / exact tiling); MC_Block model-checks the exchange as libcoap runs it '
+        '(state tokens, Request-Tag, reassembly keyed by Request-Tag, deletion at completion) over all losses, duplications and reorderings within small constants. A real libcoap '
+        'client and a real libcoap server then run on the simulator: every body length around the multiples of every block size 16..1024, both directions, single-body and '
+        'per-block delivery, CON and NON, block size derived from either side\'s MTU (64..2048), early renegotiation, 64 KiB, two transfers on one session, every single '
+        'fault and sampled pairs (drop / duplicate / late) over the first datagrams, full replays and random schedules. TLC judges each server and client handler invocation '
+        '(bytes are the sender\'s, whole body once or aligned slices tiling it), the tokens the client handlers see, release callbacks (exactly once per body), the end of each '
+        'transfer (success exactly once when undisturbed; error response or NACK when a Confirmable transfer is abandoned) and every datagram (<= session maximum, block carries '
+        'exactly the slice its option names, M iff more follows, Size1/Size2 = body length).',
+   note='Latitude: in per-block mode an identical block may repeat after loss/duplication (libcoap documents no reassembly and no de-duplication there). Known findings '
+        'KF_C09_EVERY_BLOCK_ARRIVED_AGAIN and KF_C09_LEFTOVER_RESPONSE_KEEPS_STATE_TOKEN are reported, not failed. Q-Block (RFC 9177) is not exercised.'),
  'C11': dict(module='observe', engine='observe', category='model_checking', design_ref='4/C11',
    technique='TLA+ spec Observe (TLC closed model of register/change/notify/cancel interleavings) + TLC judging every notification of the real server',
    text='Observe.tla keeps one entry per (client, resource, query) with the last Observe value and the run of NON notifications; MC_Observe explores all '
